@@ -123,7 +123,7 @@ def run(ctx):
     ctx.cov['rule'] = ('one case = (program, boundary k) with a suspend/resume at k, or one altered state file; evaluations = cases; '
                        'distinct = distinct (program text, k) / (alteration kind, position, value)')
     rng = ctx.rng
-    nprog = ctx.pick(14, 400)
+    nprog = ctx.pick(14, 160)
     tmp = tempfile.mkdtemp(prefix='vf40_', dir=core.SCRATCH_BASE)
     sf = os.path.join(tmp, 'st.bin')
     try:
@@ -151,7 +151,7 @@ def run(ctx):
             prog, text = g.program(size=rng.choice([5, 8, 10]))
             progs.append(prog)
             k = 1
-            while k <= ctx.pick(45, 120):
+            while k <= ctx.pick(45, 90):
                 ev, reached = G.run_suspended(text, len(progs), prog['vars'], k, sf, tmp, budget=300)
                 if not reached:
                     break
